@@ -520,9 +520,10 @@ fn wide_job(ctx: &Ctx, job: usize, histories: u64) -> Stats {
 
 pub fn run(ctx: &Ctx) -> (Stats, Spec) {
     let mut st = Stats::new();
+    st.merge(exhaustive(0));
     st.merge(exhaustive(1));
     st.merge(exhaustive(2));
-    st.exhaustive.push("b = 1 and b = 2: every reachable pair of reference states (16 / 256 pairs) x every next operation (insert, union/intersect/complement in all four operand combinations incl. self-aliased, empty, universe, contains for every element)".into());
+    st.exhaustive.push("b = 0 (one element, the integer 0), b = 1 and b = 2: every reachable pair of reference states (16 / 256 pairs) x every next operation (insert, union/intersect/complement in all four operand combinations incl. self-aliased, empty, universe, contains for every element)".into());
     st.merge(exhaustive(3));
     st.exhaustive.push("b = 3: all 65 536 reference state pairs x every next operation".into());
     let iters = ctx.tier.pick(300u64, 30_000u64);
